@@ -50,6 +50,10 @@ def run(ctx):
     ctx.guarded("R17.2", "to_str", lambda: to_str(ctx))
     ctx.guarded("R17.3", "dispatch", lambda: dispatch(ctx))
     ctx.guarded("R17.5", "add_route", lambda: add_route(ctx))
+    ctx.rule("R17.6", "the lookup path is the request's absolute path as C16 defines it (R16.3)")
+    from .c06 import _Remap
+    from .c16 import abs_path
+    ctx.guarded("R17.6", "abs-path", lambda: abs_path(_Remap(ctx, "R17.6")))
 
 
 def find_event(lf, pred):
